@@ -15,6 +15,12 @@ use std::time::{Duration, Instant};
 
 pub const VERIF_ROOT: &str = "/verif";
 
+/// Where evidence and replay files go; `VERIF_OUT` redirects them when the
+/// simulator is pointed at a scratch copy of the repository (sensitivity runs).
+pub fn out_root() -> PathBuf {
+    std::env::var("VERIF_OUT").map(PathBuf::from).unwrap_or_else(|_| PathBuf::from(VERIF_ROOT))
+}
+
 #[derive(Debug, Clone, Serialize, Deserialize)]
 pub struct Minimised {
     pub property: String,
@@ -435,7 +441,7 @@ pub struct ReplayFile {
 }
 
 pub fn write_replay(m: &Minimised, seed: u64, tier: Tier, process_death: bool) -> Result<PathBuf, String> {
-    let dir = Path::new(VERIF_ROOT).join("replays").join(&m.property);
+    let dir = out_root().join("replays").join(&m.property);
     std::fs::create_dir_all(&dir).map_err(|e| e.to_string())?;
     let mut mon = Mon::new(true);
     if !process_death {
@@ -754,7 +760,7 @@ pub fn check(exe: &Path, prop: &str, tier: Tier) -> i32 {
         "wall_s": wall,
         "violations": n_viol
     });
-    let evp = Path::new(VERIF_ROOT).join("evidence").join(format!("{}.json", prop));
+    let evp = out_root().join("evidence").join(format!("{}.json", prop));
     let _ = std::fs::create_dir_all(evp.parent().unwrap());
     if let Err(e) = std::fs::write(&evp, serde_json::to_string_pretty(&evidence).unwrap()) {
         eprintln!("harness error: cannot write evidence: {}", e);
